@@ -34,6 +34,10 @@ class Ctx:
         self.mode = eng.mode
         self.witness = witness
         self.consts = {}  # name -> z3 Real (sym mode)
+        self.bools = {}  # name -> z3 Bool (sym mode; abstract-domain harnesses)
+        if self.mode == "real" and witness is not None and "__decisions__" in witness:
+            eng.script = list(witness["__decisions__"])
+            eng.script_pos = 0
         self.obligations = []  # dicts
         self.tags = []
         self.n_fail = 0
@@ -49,6 +53,14 @@ class Ctx:
         if hi is not None:
             self.eng.assume(z <= self.E.q(hi))
         return self.E.SymReal(z)
+
+    def boolconst(self, name):
+        """Truth value of an uninterpreted predicate at the arbitrary behaviour."""
+        if self.mode == "real":
+            return self.z3.BoolVal(bool(self.witness.get("__bools__", {}).get(name, False)))
+        z = self.z3.Bool("b_" + name)
+        self.bools[name] = z
+        return z
 
     def tag(self, t):
         if t not in self.tags:
@@ -172,6 +184,12 @@ def find_witnesses(ctx, extra, k=1):
                         dyadic = False
                     vals[n] = str(fixed)
                 # the fixed values are jointly satisfiable by construction (each step checked)
+                if ctx.bools:
+                    if names:
+                        if str(eng.check()) == "sat":
+                            m = eng.s.model()
+                    vals["__bools__"] = {n: bool(z3.is_true(m.eval(z, model_completion=True))) for n, z in ctx.bools.items()}
+                    vals["__decisions__"] = [bool(d) for d in eng.trace]
                 got = {"level": level + ("+dyadic" if dyadic else ""), "consts": vals}
             eng.s.pop()
         finally:
@@ -180,9 +198,11 @@ def find_witnesses(ctx, extra, k=1):
         if not got:
             break
         out.append(got)
-        if not names:
+        if not names and not ctx.bools:
             break
-        blocked.append(z3.Or(*[ctx.consts[n] != E.q(Fraction(got["consts"][n])) for n in names]))
+        blk = [ctx.consts[n] != E.q(Fraction(got["consts"][n])) for n in names]
+        blk += [z != bool(got["consts"]["__bools__"][n]) for n, z in ctx.bools.items()]
+        blocked.append(z3.Or(*blk))
     return out
 
 
@@ -351,23 +371,27 @@ def sym_worker(args):
             if want and rate < 1.0 and eng.stats.paths > 0:
                 hsh = int(hashlib.sha1(repr((job, eng.trace)).encode()).hexdigest()[:8], 16) / 0xFFFFFFFF
                 want = hsh < rate or any(o["status"] != "ok" for o in ctx.obligations)
-            if want and ctx.consts:
+            if want and (ctx.consts or ctx.bools):
                 ws = find_witnesses(ctx, [], k=1)
                 if ws:
                     w = ws[0]
                     import z3
 
+                    def _fix():
+                        for n, z in ctx.consts.items():
+                            eng.s.add(z == E.q(Fraction(w["consts"][n])))
+                        for n, z in ctx.bools.items():
+                            eng.s.add(z == bool(w["consts"]["__bools__"][n]))
+
                     eng.s.push()
-                    for n, z in ctx.consts.items():
-                        eng.s.add(z == E.q(Fraction(w["consts"][n])))
+                    _fix()
                     for f in eng.lp_basic_facts:
                         eng.s.add(f)
                     r = eng.check()
                     if str(r) != "sat":
                         eng.s.pop()
                         eng.s.push()
-                        for n, z in ctx.consts.items():
-                            eng.s.add(z == E.q(Fraction(w["consts"][n])))
+                        _fix()
                         r = eng.check()
                     if str(r) == "sat":
                         m = eng.s.model()
